@@ -301,50 +301,81 @@ func (res *Response) ReadFrom(r io.Reader) (n int64, err error) {
 		return 0, nil
 	}
 
+	// Sendfile puts the file's bytes on the wire unframed, so that path is
+	// only taken for a file (or a limited part of one) when the response is
+	// identity-framed with a declared Content-Length. Everything else goes
+	// through Write, which knows about status, framing and buffering.
+	f, remain, sender := res.sendfileSource(c, r)
+	if sender == nil {
+		return io.Copy(writerOnly{res}, r)
+	}
+
 	res.hasBody = true
 	res.eoncodeHead()
-	_, err = c.Write(*res.buffer)
-	mempool.Free(res.buffer)
-	res.buffer = nil
-	if err != nil {
-		return 0, err
-	}
-
-	if !res.Parser.Engine.DisableSendfile {
-		lr, ok := r.(*io.LimitedReader)
-		if ok {
-			n, r = lr.N, lr.R
-			if n <= 0 {
-				return 0, nil
-			}
+	// what has been buffered so far goes out first.
+	for _, pp := range []**[]byte{&res.buffer, &res.bodyBuffer} {
+		pbuf := *pp
+		if pbuf == nil {
+			continue
 		}
-
-		f, ok := r.(*os.File)
-		if ok {
-			rc := c
-			if hc, ok := c.(*Conn); ok {
-				rc = hc.Conn
-			}
-			nc, ok := rc.(interface {
-				Sendfile(f *os.File, remain int64) (int64, error)
-			})
-			if !ok {
-				hc, ok2 := c.(*Conn)
-				if ok2 {
-					nc, ok = hc.Conn.(interface {
-						Sendfile(f *os.File, remain int64) (int64, error)
-					})
-				}
-
-			}
-			if ok {
-				ns, err := nc.Sendfile(f, lr.N)
-				return ns, err
-			}
+		*pp = nil
+		if len(*pbuf) > 0 {
+			_, err = c.Write(*pbuf)
+		}
+		mempool.Free(pbuf)
+		if err != nil {
+			return 0, err
 		}
 	}
+	n, err = sender.Sendfile(f, remain)
+	res.bodyWritten += int(n)
+	return n, err
+}
 
-	return io.Copy(c, r)
+// writerOnly hides ReadFrom from io.Copy.
+type writerOnly struct {
+	io.Writer
+}
+
+type sendfiler interface {
+	Sendfile(f *os.File, remain int64) (int64, error)
+}
+
+// sendfileSource returns the file, the number of bytes to send (0: up to its
+// end) and the connection's Sendfile implementation if r can be sent that way.
+//
+//go:norace
+func (res *Response) sendfileSource(c net.Conn, r io.Reader) (*os.File, int64, sendfiler) {
+	if res.Parser.Engine.DisableSendfile {
+		return nil, 0, nil
+	}
+	var remain int64
+	if lr, ok := r.(*io.LimitedReader); ok {
+		if lr.N <= 0 {
+			return nil, 0, nil
+		}
+		remain, r = lr.N, lr.R
+	}
+	f, ok := r.(*os.File)
+	if !ok {
+		return nil, 0, nil
+	}
+	if hc, ok := c.(*Conn); ok {
+		c = hc.Conn
+	}
+	sender, ok := c.(sendfiler)
+	if !ok {
+		return nil, 0, nil
+	}
+	res.WriteHeader(http.StatusOK)
+	res.checkChunked()
+	if res.chunked {
+		return nil, 0, nil
+	}
+	if cl, err := res.contentLength(); err != nil || cl <= 0 {
+		return nil, 0, nil
+	}
+	return f, remain, sender
 }
 
 // Push implements the http.Pusher interface.
